@@ -283,7 +283,13 @@ def where(c, a, b):
 
 
 def ix_(*seqs):
-    raise OutOfReach('np.ix_')
+    out = []
+    n = len(seqs)
+    for j, sq in enumerate(seqs):
+        a = array_from_list(list(sq)) if not isinstance(sq, SymNDArray) else sq
+        key = tuple((slice(None) if t == j else None) for t in range(n))
+        out.append(a[key])
+    return tuple(out)
 
 
 class _NS:
